@@ -32,7 +32,7 @@ import re
 from decimal import Decimal as _Decimal
 from fractions import Fraction as _Fraction
 
-from ..core import Infra, Prop, Violation, import_repo, hexs, unhexs
+from ..core import Infra, Prop, Violation, import_repo, hexs, unhexs, LEAN, write_if_changed
 
 FINDING = "C12-values-reinterpreted"
 FINDING_SCAN = "C12-required-scan-ignores-structure"
@@ -460,6 +460,73 @@ def sig_names(module) -> list:
     return sorted(n for n in out if re.fullmatch(r"\w+", n))
 
 
+# --- E-ribosome-registry: the key every way of registering writes under, EVALUATED on the real code -----------
+def _cps(s):
+    return "[" + ", ".join(str(ord(c)) for c in s) + "]"
+
+
+def eval_reg_rows(m):
+    """Every registration way x (name argument truthy / '' / absent) x (the mRNA's own name truthy / ''): run it on a
+    fresh Ribosome of the tree under test and see which key holds the new template afterwards.  -> list of
+    (lean RegOp term, lean Option Str term) or None when the code's shape is not recognised (fail closed)."""
+    rows = []
+    K, O, SEQ = "k", "o", "s"
+
+    def observe(rb, before, act):
+        try:
+            act()
+        except ValueError:
+            return "none" if dict(rb.templates) == before else None
+        except Exception:
+            return None
+        new = {k: v for k, v in rb.templates.items() if k not in before or before[k] is not v}
+        if len(new) != 1:
+            return None
+        (k, v), = new.items()
+        if not isinstance(k, str) or getattr(v, "sequence", None) != SEQ:
+            return None
+        return f"some {_cps(k)}"
+    try:
+        for pre in (False, True):            # an empty registry / one that already holds both candidate keys
+            for name in (None, "", K):
+                for own in ("", O):
+                    rb = m.Ribosome(silent=True)
+                    if pre:
+                        rb.templates[K] = m.mRNA(sequence="old", name="x")
+                        rb.templates[O] = m.mRNA(sequence="old", name="y")
+                    r = observe(rb, dict(rb.templates), lambda: rb.register_template(m.mRNA(sequence=SEQ, name=own), name=name))
+                    rows.append((f".register {_cps(name or '')} {_cps(own)} {_cps(SEQ)}", r))
+            for name in ("", K):
+                rb = m.Ribosome(silent=True)
+                if pre:
+                    rb.templates[K] = m.mRNA(sequence="old", name="x")
+                r = observe(rb, dict(rb.templates), lambda: rb.create_template(SEQ, name))
+                rows.append((f".create {_cps(name)} {_cps(SEQ)}", r))
+        for own in ("", O, K):
+            t = m.mRNA(sequence=SEQ, name=own)
+            rb = m.Ribosome(silent=True, templates={K: t})
+            ks = [k for k, v in rb.templates.items() if v is t]
+            rows.append((f".assign {_cps(K)} {_cps(own)} {_cps(SEQ)}", f"some {_cps(ks[0])}" if len(ks) == 1 and len(rb.templates) == 1 else None))
+    except Exception:
+        return None
+    return rows
+
+
+def render_reg_rows(rows):
+    head = ("/- GENERATED by harness/vf/props/c12.py (E-ribosome-registry) from operon_ai/organelles/ribosome.py - do not edit.\n"
+            "   Every way of registering a template x (name argument given / empty / absent) x (own name given / empty),\n"
+            "   on an empty registry and on one that already holds both candidate keys: the key under which the real code\n"
+            "   stored the template (`none`: ValueError, registry unchanged).  A row the extractor could not interpret is\n"
+            "   emitted with the key `[0]`, which no model operation writes (the dependent theorem fails). -/\n"
+            "import Operon.Model.Ribosome\nnamespace Operon.Gen.RibosomeRegistry\nopen Operon.Ribosome\n\n")
+    if rows is None:
+        body = "def regKeyRows : List (RegOp × Option Str) := [(.create [] [], some [0])]\n"
+    else:
+        body = "def regKeyRows : List (RegOp × Option Str) := [\n" + ",\n".join(
+            f"  ({op}, {r if r is not None else 'some [0]'})" for op, r in rows) + "]\n"
+    return head + body + "\nend Operon.Gen.RibosomeRegistry\n"
+
+
 def pr(segs) -> str:
     o = []
     for s in segs:
@@ -521,6 +588,12 @@ class C12(Prop):
         self.signames = sig_names(m)
         self.special = sorted(set(self.signames) | set(STATIC_SPECIAL) | set(KEYWORDS) | set(DUNDERS))
         self._rsv = {}
+
+    def extract(self, ctx):
+        rows = eval_reg_rows(self.m)
+        changed = write_if_changed(LEAN / "Operon/Gen/RibosomeRegistry.lean", render_reg_rows(rows))
+        return [{"id": "E-ribosome-registry", "rows": None if rows is None else len(rows),
+                 "unreadable_rows": None if rows is None else sum(1 for _o, r in rows if r is None), "facts_changed": changed}]
 
     def rejected(self, op, name):
         """does the call protocol of the entry point reject a keyword binding called `name` (TypeError before any
